@@ -19,6 +19,8 @@ import YadismModel.Model.Dispatch
 import YadismModel.Generated.Dispatch
 import YadismModel.Model.TMC
 import YadismModel.Generated.TMC
+import YadismModel.Model.Threshold
+import YadismModel.Generated.Threshold
 
 open Yadism Yadism.Proto
 
@@ -365,6 +367,29 @@ def rdConvfx : RdM String := do
   | none => pure "rejected"
   | some v => pure (showRat v)
 
+/-- `thr Q2 m2 x z`: the generated threshold terms on exact rationals:
+`below(z) below(x) sign(eta(z)) labda point` (`-` = undefined) -/
+def rdThr : RdM String := do
+  let q2 ← rat; let m2 ← rat; let x ← rat; let z ← rat
+  let env := thrEnv q2 m2 x z
+  let envx := thrEnv q2 m2 x x
+  let sb (o : Option Bool) : String := match o with | some b => showBool b | none => "-"
+  let sq (o : Option Rat) : String := match o with | some r => showRat r | none => "-"
+  let sgn : String := match Yadism.Gen.ncEta.evalQ env with
+    | some e => if e > 0 then "+" else if e < 0 then "neg" else "0"
+    | none => "-"
+  pure s!"{sb (Yadism.Gen.pairGuard.holdsQ env)} {sb (Yadism.Gen.pairGuard.holdsQ envx)} {sgn} {sq (Yadism.Gen.ccLabda.evalQ env)} {sq (Yadism.Gen.ccPoint.evalQ env)}"
+
+/-- `convm point belowSupport hasReg hasSing hasLoc quad pdfAtX loc weight decorated` -/
+def rdConvm : RdM String := do
+  let point ← rat
+  let bs ← bool
+  let hr ← bool; let hs ← bool; let hl ← bool
+  let quad ← rat; let pdf ← rat; let loc ← rat; let w ← rat
+  let dec ← bool
+  let p : RslParts Rat := ⟨if hr then some 1 else none, if hs then some 1 else none, if hl then some loc else none⟩
+  pure (showRat (operatorEntry Yadism.Gen.convEps point bs (decorate dec p) quad pdf w))
+
 /-- `kinfo name` : size, maxArg, usesZ -/
 def rdKinfo : RdM String := do
   let name ← tok
@@ -474,6 +499,8 @@ def handle (op : String) : RdM String := do
   | "keval" => rdKeval
   | "kinfo" => rdKinfo
   | "tmcval" => rdTmcval
+  | "thr" => rdThr
+  | "convm" => rdConvm
   | "convfx" => rdConvfx
   | "update" => do   -- compatibility.update: update <theory card> <obs card>
       let t ← rdCard
